@@ -201,7 +201,9 @@ func intern(ss ...string) {
 		if _, ok := internTab[s]; !ok {
 			n := fmt.Sprintf("s%d", len(internTab))
 			internTab[s] = n
-			internDefs = append(internDefs, "Definition "+n+" : list Z := "+c.Bytes(s)+"%Z.")
+			internDefs = append(internDefs, "Definition "+n+" : list Z := "+c.Bytes(s)+"%Z.",
+				"Definition a"+n[1:]+" : request := ("+n+", nomatch, [nosel GETs; nosel POSTs]).",
+				"Definition b"+n[1:]+" : request := ("+n+", nomatch, [nosel GETs]).")
 		}
 	}
 }
@@ -228,6 +230,28 @@ func coq(k *Case) string {
 			j++
 		}
 		o := k.Reqs[i].Obs
+		if n, ok := internTab[k.Reqs[i].URL]; ok && !(o.Match || o.HasValue || o.Norm != "" || len(o.Params) > 0) {
+			// nothing matched, nothing selected: one predefined constant per URL
+			ms := ""
+			for x := i; x < j; x++ {
+				q := k.Reqs[x]
+				if len(q.Obs.Rems) == 0 && len(q.Obs.Diags) == 0 && !q.Obs.Should {
+					ms += q.Method + ","
+				} else {
+					ms += "?,"
+				}
+			}
+			if ms == "GET,POST," {
+				reqs = append(reqs, "a"+n[1:])
+				i = j
+				continue
+			}
+			if ms == "GET," {
+				reqs = append(reqs, "b"+n[1:])
+				i = j
+				continue
+			}
+		}
 		lo := "nomatch"
 		if o.Match || o.HasValue || o.Norm != "" || len(o.Params) > 0 {
 			lo = c.Tuple(c.B(o.Match), c.B(o.HasValue), bytes(o.Norm),
@@ -430,6 +454,11 @@ func stdDecl(i int, m, u string, typ int) Decl {
 
 // all multisets of size 1..n of (pattern, method)
 func multisets(o *c.Out, suite string, pats []string, ms []string, n int, reqs []Req, sameType bool) {
+	multisetsSplit(o, suite, 1, pats, ms, n, reqs, sameType)
+}
+
+// split > 1: the groups go to the suites <suite>_0 .. <suite>_<split-1> (smaller shards)
+func multisetsSplit(o *c.Out, suite string, split int, pats []string, ms []string, n int, reqs []Req, sameType bool) {
 	type pm struct{ u, m string }
 	var all []pm
 	for _, u := range pats {
@@ -437,9 +466,14 @@ func multisets(o *c.Out, suite string, pats []string, ms []string, n int, reqs [
 			all = append(all, pm{u, m})
 		}
 	}
+	first := 0
 	var rec func(start int, cur []pm)
 	rec = func(start int, cur []pm) {
 		if len(cur) > 0 {
+			su := suite
+			if split > 1 {
+				su = fmt.Sprintf("%s_%d", suite, first%split)
+			}
 			ds := make([]Decl, len(cur))
 			for i, x := range cur {
 				t := i + 1
@@ -448,12 +482,15 @@ func multisets(o *c.Out, suite string, pats []string, ms []string, n int, reqs [
 				}
 				ds[i] = stdDecl(i+1, x.m, x.u, t)
 			}
-			runGroup(o, suite, ds, nil, nil, reqs)
+			runGroup(o, su, ds, nil, nil, reqs)
 		}
 		if len(cur) == n {
 			return
 		}
 		for i := start; i < len(all); i++ {
+			if len(cur) == 0 {
+				first = i
+			}
 			rec(i, append(append([]pm{}, cur...), all[i]))
 		}
 	}
@@ -468,9 +505,10 @@ func main() {
 	segs := []string{"a", "b", "{p}", "*"}
 	reqURLs := pathPatterns([]string{"a", "b", "c"}, 3, false)
 	reqKindURLs := kindPatterns([]string{"a", "b"}, 3, false)
-	pool := append(pathPatterns([]string{"a", "b", "{p}", "{q}", "*"}, 3, false),
-		"h/a/", "/h/a", "h//a", "", "h/a.b", "h.a/b", "x.h/a", "{s}.h/a", "*.h/a", "*", "h/{{p}}", "h/{}", "h/{p}/{p}",
-		"h/a/b/c", "h/a/b/*", "h/{p}/b/{q}", "h/*/a/*", "h/*/*", "h.*", "h/{p", "h/a}", "./h/a/.", "h/a/{p}/c")
+	pool := pathPatterns([]string{"a", "b", "{p}", "{q}", "*"}, 3, true) // valid spellings
+	odd := []string{"h/a/", "/h/a", "h//a", "", "h/a.b", "h.a/b", "x.h/a", "{s}.h/a", "*.h/a", "*", "h/{{p}}", "h/{}", "h/{p}/{p}",
+		"h/a/b/c", "h/a/b/*", "h/{p}/b/{q}", "h/*/a/*", "h/*/*", "h/*/a", "h/*/{p}/*", "h.*", "h/{p", "h/a}", "./h/a/.", "h/a/{p}/c"}
+	quirk := []string{"h/*", "h/*/*", "h/*/a/*", "h/*/a", "h/a/*", "h/a", "h/{p}/*"} // wildcard in the middle
 	reqPool := append(pathPatterns([]string{"a", "b", "c", "{z}"}, 3, false),
 		"h/a/", "/h/a", "h//a", "", "h/a.b", "h.a/b", "x.h/a", "y.x.h/a/b", "h/a/b/c", "h/a/b/c/d", "h.a", "g/a", "h/*",
 		"h/a/*", "./h/a/.", "h/c/b/a")
@@ -482,18 +520,28 @@ func main() {
 	intern(kindPatterns(segs, 3, false)...)
 	intern(reqKindURLs...)
 	intern(pool...)
+	intern(odd...)
+	intern(quirk...)
 	intern(reqPool...)
 	header := "From Verif Require Import C13.Model.\nImport ListNotations.\nOpen Scope Z_scope.\n" +
 		"Definition nomatch : lookup_obs := (false, false, [], []).\n" +
 		"Definition nosel (m : list Z) : sel_obs := (m, [], [], false).\n" +
+		"Definition GETs : list Z := " + c.Bytes("GET") + "%Z.\nDefinition POSTs : list Z := " + c.Bytes("POST") + "%Z.\n" +
 		strings.Join(internDefs, "\n")
 	o.DeclareSuite("paths", header, "case", "run_case")
 	o.DeclareSuite("kinds", header, "case", "run_case")
 	o.DeclareSuite("random", header, "case", "run_case")
+	if o.Thorough() {
+		for i := 0; i < 4; i++ {
+			o.DeclareSuite(fmt.Sprintf("paths3_%d", i), header, "case", "run_case")
+			o.DeclareSuite(fmt.Sprintf("random_%d", i), header, "case", "run_case")
+		}
+		o.DeclareSuite("pathsd3", header, "case", "run_case")
+	}
 	o.Rule("paths: every multiset of <= 2 (thorough: 3) declarations (pattern h/<= 2 segments over {a,b,{p},*}, " +
 		"thorough also <= 3 segments for <= 2 declarations) x {GET,POST}, each in every order, against every request URL " +
 		"h/<= 3 segments over {a,b,c} x {GET,POST}; kinds: every multiset of <= 2 GET declarations over every host-label/path-segment split of " +
-		"<= 2 labels; random: 1..5 declarations from a pool with malformed spellings, shared parameter names, " +
+		"<= 2 labels; also every pair over 7 patterns with a wildcard in the middle; random: 1..5 declarations from a pool of valid patterns (1 in 6 malformed / unusually spelled), shared parameter names, " +
 		"several remedies per declaration, equal remedy types, disabled plugins, globals, in every order (<= 4) or 12 " +
 		"sampled orders; distinct = distinct (declarations in order, requests, observations); non-trivial = at " +
 		"least one endpoint-scoped remedy was selected for some request")
@@ -516,11 +564,14 @@ func main() {
 	multisets(o, "paths", pathPatterns(segs, 2, false), methods, 1, reqPaths, false)
 	multisets(o, "paths", pathPatterns(segs, 2, true), methods, 2, reqPaths, false)
 	if o.Thorough() {
-		multisets(o, "paths", pathPatterns(segs, 3, true), methods, 2, reqPaths, false)
-		multisets(o, "paths", pathPatterns(segs, 2, true), methods, 3, reqsOf(reqURLs, []string{"GET"}), false)
+		multisets(o, "pathsd3", pathPatterns(segs, 3, true), methods, 2, reqPaths, false)
+		multisetsSplit(o, "paths3", 4, pathPatterns(segs, 2, true), methods, 3, reqsOf(reqURLs, []string{"GET"}), false)
 	}
 	// the same declarations with one remedy type everywhere: checkForDuplicates
 	multisets(o, "paths", pathPatterns(segs, o.Scale(1, 2, 1), true), methods, 2, reqPaths, true)
+
+	// non-trailing wildcards next to the patterns they would shadow
+	multisets(o, "paths", quirk, methods, 2, reqPaths, false)
 
 	// kinds: host labels vs path segments
 	multisets(o, "kinds", kindPatterns(segs, 2, true), []string{"GET"}, 2, reqsOf(reqKindURLs, []string{"GET"}), false)
@@ -530,12 +581,15 @@ func main() {
 
 	// random, bigger and malformed
 	r := o.Rng
-	for i := 0; i < o.Scale(400, 6000, 20000); i++ {
+	for i := 0; i < o.Scale(400, 2000, 20000); i++ {
 		n := r.Range(1, 5)
 		ds := make([]Decl, n)
 		name := 1
 		for j := range ds {
 			d := Decl{Method: c.Pick(r, mpool[:r.Range(1, 4)]), URL: c.Pick(r, pool)}
+			if r.Chance(1, 6) { // malformed / unusual spelling
+				d.URL = c.Pick(r, odd)
+			}
 			if r.Chance(1, 3) && j > 0 { // repeat an earlier URL / pattern
 				d.URL = ds[r.Intn(j)].URL
 			}
@@ -572,7 +626,11 @@ func main() {
 				reqs = append(reqs, Req{Method: m, URL: u})
 			}
 		}
-		runGroup(o, "random", ds, grem, gdiag, reqs)
+		su := "random"
+		if o.Thorough() {
+			su = fmt.Sprintf("random_%d", i%4)
+		}
+		runGroup(o, su, ds, grem, gdiag, reqs)
 	}
 	o.Finish()
 }
